@@ -540,6 +540,15 @@ func skipGo(f *ssa.Function) bool {
 // configured bound.
 func (i *interpreter) concreteLen(v value, what string) int64 {
 	if tm, ok := v.(*Term); ok {
+		// a length that is symbolic but has one value on every continuation needs no fork
+		if d, ok := i.determined(tm); ok {
+			if tm.sort.K != SInt {
+				d = sval(d, tm.sort.W)
+			}
+			if d.IsInt64() {
+				return d.Int64()
+			}
+		}
 		k, ok := i.concretize(tm, 0, int64(i.cfg.MaxSymLen))
 		if !ok {
 			panic(engineAbort{abBudget, fmt.Sprintf("symbolic %s outside [0,%d]", what, i.cfg.MaxSymLen)})
